@@ -232,14 +232,25 @@ func (config Config) NewSession(nic string) (session *Session, err error) {
 // Close stop all session goroutines and close notification channel and the underlaying raw connection.
 // The session is no longer valid after calling Close().
 func (h *Session) Close() {
+	// closed, closeChan and C are shared with the packet loop (ReadFrom, Notify) and with purge
+	h.mutex.Lock()
 	if h.closed {
+		h.mutex.Unlock()
 		return
 	}
 	h.closed = true
 	close(h.closeChan)
 	close(h.C)
+	h.mutex.Unlock()
 	h.Conn.Close()
 	time.Sleep(time.Second) // give time for goroutines to end
+}
+
+// isClosed reports whether Close was called.
+func (h *Session) isClosed() bool {
+	h.mutex.RLock()
+	defer h.mutex.RUnlock()
+	return h.closed
 }
 
 func (h *Session) EnableIP4Forwarding() error {
@@ -269,7 +280,7 @@ func (h *Session) ReadFrom(b []byte) (int, net.Addr, error) {
 			}
 			continue
 		}
-		if h.closed {
+		if h.isClosed() {
 			return n, addr, ErrHandlerClosed
 		}
 		return n, addr, err
